@@ -1,9 +1,181 @@
 import Driver.Util
-/-! line-protocol operations of the `Tensor` models (stub: filled in by the owner of these models) -/
+import PbBss.Model.Tensor
+/-! line-protocol operations of the reversed-index tensor layer (`driver_tensor`).
+
+A tensor travels as `ndim d0 … d(ndim-1) x0 x1 …` (NumPy shape order, row-major data, floats as IEEE-754
+bit patterns).  The driver stores the data in an array and reads it through the reversed multi-index;
+every operation below runs the definitions of `PbBss/Model/Tensor.lean` on the FULL stacked arrays and
+prints the full result — the harness does no slicing of its own. -/
+open PbBss PbBss.Tensor
 namespace Driver
+
+instance : BEq Float := ⟨fun a b => a == b⟩
+
+def tinyT : Float := 2.2250738585072014e-308
+
+/-- parse a tensor starting at token `off`; returns the tensor and the offset after it -/
+def parseT (a : Array String) (off : Nat) : T Float × Nat :=
+  let nd := tokNat a off
+  let shape := (List.range nd).map fun i => tokNat a (off + 1 + i)
+  let size := prodList shape
+  let base := off + 1 + nd
+  let data : Array Float := Array.ofFn (n := size) fun i => tokFloat a (base + i.val)
+  let rshape := shape.reverse
+  (⟨rshape, fun idx => data.getD (ravel rshape idx) 0⟩, base + size)
+
+def parseNats (a : Array String) (off : Nat) : List Nat × Nat :=
+  let n := tokNat a off
+  ((List.range n).map fun i => tokNat a (off + 1 + i), off + 1 + n)
+
+/-- print in NumPy order: `ndim shape… data…` -/
+def fmtT (t : T Float) : String :=
+  let size := prodList t.rshape
+  let shape := t.rshape.reverse
+  let head := fmtNats (shape.length :: shape)
+  let body := fmtFloats ((List.range size).map fun o => t.get (unravel t.rshape o))
+  if size == 0 then head else head ++ " " ++ body
+
+/-- store the values of a tensor in an array (identity on valid indices; stops recomputation) -/
+def materialize (t : T Float) : T Float :=
+  let size := prodList t.rshape
+  let data : Array Float := ((List.range size).map fun o => t.get (unravel t.rshape o)).toArray
+  ⟨t.rshape, fun idx => data.getD (ravel t.rshape idx) 0⟩
+
+def covTypeOf (s : String) : CovType :=
+  if s == "full" then .full else if s == "diagonal" then .diagonal else .spherical
+
+def binop (s : String) : Float → Float → Float :=
+  if s == "add" then (· + ·) else if s == "sub" then (· - ·) else if s == "mul" then (· * ·) else (· / ·)
+
+/-- per-matrix external of `Gaussian.__post_init__` on `Float`: the precision Cholesky factor
+`P = (L⁻¹)ᵀ` of `Σ = L Lᵀ` (what sklearn's `_compute_precision_cholesky(·, 'full')` returns per matrix) -/
+def cholPrec (m : T Float) : T Float := Id.run do
+  let n := m.rshape.getD 0 0
+  let elt (i j : Nat) : Float := m.get [j, i]
+  -- Cholesky L (lower)
+  let mut L : Array (Array Float) := Array.replicate n (Array.replicate n 0)
+  for i in [0:n] do
+    for j in [0:i+1] do
+      let mut s := elt i j
+      for k in [0:j] do
+        s := s - (L[i]!)[k]! * (L[j]!)[k]!
+      if i == j then
+        L := L.set! i ((L[i]!).set! j (Float.sqrt s))
+      else
+        L := L.set! i ((L[i]!).set! j (s / (L[j]!)[j]!))
+  -- X = L⁻¹ (lower) by forward substitution on the identity
+  let mut X : Array (Array Float) := Array.replicate n (Array.replicate n 0)
+  for c in [0:n] do
+    for i in [0:n] do
+      let mut s : Float := if i == c then 1 else 0
+      for k in [0:i] do
+        s := s - (L[i]!)[k]! * (X[k]!)[c]!
+      X := X.set! i ((X[i]!).set! c (s / (L[i]!)[i]!))
+  let Xf := X
+  -- P = Xᵀ : P[i][j] = X[j][i]
+  return ⟨[n, n], fun idx => ((Xf.getD (idx.getD 0 0) #[]).getD (idx.getD 1 0) 0)⟩
 
 def opsTensor (a : Array String) : Option String :=
   match a[0]! with
+  | "id" =>
+    let (t, _) := parseT a 1
+    some (fmtT t)
+  | "fixlead" =>
+    -- fixlead c <nlead lead(reversed)…> T
+    let c := tokNat a 1
+    let (lead, o) := parseNats a 2
+    let (t, _) := parseT a o
+    some (fmtT (fixLead t c lead))
+  | "reduce" =>
+    -- reduce <sum|mean|amax> k keep T
+    let k := tokNat a 2
+    let keep := tokNat a 3 == 1
+    let (t, _) := parseT a 4
+    let r := match a[1]! with
+      | "sum" => if keep then sumAxisKeep k t else sumAxis k t
+      | "mean" => if keep then meanAxisKeep k t else meanAxis k t
+      | _ => if keep then amaxAxisKeep k t else amaxAxis k t
+    some (fmtT r)
+  | "scan" =>
+    -- scan <cumsum|cumprod|cumprod0> k T      (cumprod0: NON-negative axis k, from the start)
+    let k := tokNat a 2
+    let (t, _) := parseT a 3
+    let r := match a[1]! with
+      | "cumsum" => cumsumFromEnd k t
+      | "cumprod" => cumprodFromEnd k t
+      | _ => cumprodFromStart k t
+    some (fmtT r)
+  | "expand" =>
+    let (t, _) := parseT a 2
+    some (fmtT (expandDims (tokNat a 1) t))
+  | "swap" =>
+    let (t, _) := parseT a 3
+    some (fmtT (swapaxes (tokNat a 1) (tokNat a 2) t))
+  | "zip" =>
+    -- zip <add|sub|mul|div> A B   (NumPy broadcasting)
+    let (x, o) := parseT a 2
+    let (y, _) := parseT a o
+    some (fmtT (zipWith (binop a[1]!) x y))
+  | "bcast" =>
+    -- bcast c <nlead lead(reversed)…> T
+    let c := tokNat a 1
+    let (lead, o) := parseNats a 2
+    let (t, _) := parseT a o
+    some (fmtT (broadcastLead c lead t))
+  | "flatten" =>
+    let (t, _) := parseT a 2
+    some (fmtT (flattenLead (tokNat a 1) t))
+  | "unflatten" =>
+    -- unflatten c <nlead lead(reversed)…> T
+    let c := tokNat a 1
+    let (lead, o) := parseNats a 2
+    let (t, _) := parseT a o
+    some (fmtT (unflattenLead c lead t))
+  | "affil" =>
+    -- affil hasMask hasClip eps W LP [M]
+    let hasMask := tokNat a 1 == 1
+    let hasClip := tokNat a 2 == 1
+    let eps := tokFloat a 3
+    let (w, o) := parseT a 4
+    let (lp, o) := parseT a o
+    let mask := if hasMask then some (parseT a o).1 else none
+    some (fmtT (logPdfToAffiliation tinyT w lp mask (if hasClip then some eps else none)))
+  | "emw" =>
+    -- emw hasSal eps A [S]
+    let hasSal := tokNat a 1 == 1
+    let eps := tokFloat a 2
+    let (aff, o) := parseT a 3
+    let sal := if hasSal then some (parseT a o).1 else none
+    some (fmtT (estimateMixtureWeight eps aff sal))
+  | "gfit" =>
+    -- gfit <full|diagonal|spherical> hasSal Y [S]  ->  mean | covariance
+    let hasSal := tokNat a 2 == 1
+    let (y, o) := parseT a 3
+    let sal := if hasSal then some (parseT a o).1 else none
+    let (m, c) := gaussianFit tinyT (covTypeOf a[1]!) y sal
+    some (fmtT m ++ " | " ++ fmtT c)
+  | "glogpdf" =>
+    -- glogpdf <full|diagonal|spherical> log2pi MEAN PC LOGDET Y
+    let l2p := tokFloat a 2
+    let (mean, o) := parseT a 3
+    let (pc, o) := parseT a o
+    let (ld, o) := parseT a o
+    let (y, _) := parseT a o
+    let r := match covTypeOf a[1]! with
+      | .full => gaussianLogPdf l2p mean pc ld y
+      | .diagonal => diagonalGaussianLogPdf l2p mean pc ld y
+      | .spherical => sphericalGaussianLogPdf l2p mean pc ld y
+    some (fmtT r)
+  | "postinit" =>
+    -- postinit <full|diagonal|spherical|diagonal-noreshape> D COV  ->  precision_cholesky | log_det
+    let d := tokNat a 2
+    let (cov, _) := parseT a 3
+    let (pc, ld) := match a[1]! with
+      | "full" => fullPostInit cholPrec cov
+      | "diagonal" => diagonalPostInit cov
+      | "diagonal-noreshape" => diagonalPostInitNoReshape cov
+      | _ => sphericalPostInit d cov
+    some (fmtT pc ++ " | " ++ fmtT ld)
   | _ => none
 
 end Driver
